@@ -173,6 +173,20 @@ def run_case(ctx, res, case, lines, post):
         res.hit('ignored-model-fidelity-dims')
 
 
+def fallback_oracle(ctx, res, post):
+    """the Lean driver is unavailable: judge the implementation against the polynomial itself with a heuristic scale"""
+    for pst in post:
+        if pst is not None and pst[0] == 'val':
+            _, case, mode, kind, p, got, hist, truth = pst
+            for g, t in zip(got, truth):
+                if kind in ('interior', 'node', 'mixed') and not abs(g - t) <= 1e-6 * max(1.0, abs(t)):
+                    res.failures.append({'kind': 'surrogate-not-exact-on-polynomial-space',
+                                         'input': {**case, 'mode': mode, 'point_kind': kind, 'point': p,
+                                                   'history': [list(a) + list(b) for a, b in hist]},
+                                         'observed': g, 'expected': t})
+    return res
+
+
 def run(ctx: core.Ctx, only=None) -> core.Result:
     res = core.Result()
     res.rule = ('real Components, 1-4 inputs, random domains (location/width), linear/minmax normalisation, 0-2 ignored '
@@ -182,14 +196,19 @@ def run(ctx: core.Ctx, only=None) -> core.Result:
                 'indices.')
     lines, post = [], []
     keys = ('nin', 'alpha_lim', 'beta_lim', 'kpl', 'nout', 'domains', 'norms_in', 'norms_out', 'nsteps', 'fseed')
-    cases = [o.get('input', o) for o in only] if only is not None else [gen_case(ctx.rng) for _ in range(ctx.scale(20, 250))]
+    cases = [o.get('input', o) for o in only] if only is not None else core.corpus_cases(ctx.prop) + [gen_case(ctx.rng) for _ in range(ctx.scale(20, 250))]
     for case in cases:
         case = {k: (tuple(case[k]) if k in ('alpha_lim', 'beta_lim') else case[k]) for k in keys}
         run_case(ctx, res, case, lines, post)
-    tol_out = core.run_driver(['itp.snaptol 1'])[0]
+    t = core.try_driver(['itp.snaptol 1'], res, 'Gen.snapTol')
+    if t is None:
+        return fallback_oracle(ctx, res, post)
+    tol_out = t[0]
     tol = float(core.parse_rat(tol_out))
     lines = [ln.replace(' TOL ', f' {tol_out} ') for ln in lines]
-    out = core.run_driver(lines)
+    out = core.try_driver(lines, res, 'Amisc.predictT/gradT/hessT')
+    if out is None:
+        return fallback_oracle(ctx, res, post)
     pending = None
     for pst, o in zip(post, out):
         if pst is None:
